@@ -346,6 +346,54 @@ def run(ck, facts):
             okdis = False
             ck.note("for_inheritance/disable not evaluable: %s" % e)
     ck.expect(okdis, "R6", "for_inheritance/disable", "false for variants, inherited otherwise", "`disable` inheritance changed (must inherit everywhere except to variants)", C.loc(fi))
+    # AST level: #[diplomat::attr] lists travel from an impl block to its methods and nowhere else (everything else is inherited during lowering)
+    afi = core.fn("ast::attrs::Attrs::attrs_for_inheritance")
+    for fld in ("attrs", "demo_attrs"):
+        init = None
+        comp = None
+        for n in C.walk(C.fn_body(afi)):
+            if n.get("k") == "letst" and isinstance(n.get("pat"), dict) and n["pat"].get("n") == fld and n.get("init") is not None:
+                init = n["init"]
+            if n.get("k") == "letst" and isinstance(n.get("pat"), dict) and n["pat"].get("k") == "tuple" and n.get("init") is not None:
+                names_ = [q.get("n") if isinstance(q, dict) and q.get("k") == "bind" else None for q in (n["pat"].get("sub") or [])]
+                if fld in names_:
+                    init, comp = n["init"], names_.index(fld)
+        if init is None:
+            for n in C.walk(C.fn_body(afi)):
+                if n.get("k") == "struct" and (n.get("adt") or "").endswith("ast::attrs::Attrs"):
+                    for fl in n.get("fields", []):
+                        if fl["n"] == fld:
+                            init = fl["e"]
+        sel = {}
+        i0 = C.strip(init) if init is not None else {}
+        for c in ctxs:
+            try:
+                if i0.get("k") == "if":
+                    br = i0["t"] if exprval.bev(i0["c"], {"context": c}) else i0.get("e")
+                elif i0.get("k") == "match":
+                    br = None
+                    for arm in i0["arms"]:
+                        pv = arm["pat"]
+                        names = [(v or "").split("::")[-1] for v in [pv.get("v")] + [a_.get("v") for a_ in (pv.get("alts") or [])] if v]
+                        if pv.get("k") in ("wild", "bind") or c in names:
+                            br = arm["b"]
+                            break
+                else:
+                    br = i0
+                if comp is not None and br is not None:
+                    b0 = C.strip(br)
+                    while b0.get("k") == "block" and not b0.get("s") and b0.get("e") is not None:
+                        b0 = C.strip(b0["e"])
+                    if b0.get("k") == "tup" and len(b0.get("a", [])) > comp:
+                        br = b0["a"][comp]
+                sel[c] = "copied" if br is not None and any(x.get("k") == "mcall" and x.get("m") in ("clone", "to_vec", "to_owned") for x in C.walk(br)) else "dropped"
+            except exprval.Unknown as e:
+                sel[c] = "?%s" % e
+        want_ = {c: ("copied" if c == "MethodFromImpl" else "dropped") for c in ctxs}
+        ck.expect(bool(ctxs) and sel == want_, "R6", "ast::Attrs::attrs_for_inheritance/%s" % fld, str(sel),
+                  "the `%s` list of an item is handed down in contexts %s (expected only MethodFromImpl): conditions written on an impl block no longer reach its methods, or module-level "
+                  "attribute lists are applied twice" % (fld, sorted(c for c, v in sel.items() if v == "copied")), C.loc(afi))
+
     # type lowerers use ty_parent_attrs for the type, method_parent_attrs for its methods
     for fname in ("lower_enum", "lower_opaque", "lower_struct", "lower_out_struct", "lower_trait"):
         f = core.fn("hir::lowering::LoweringContext::" + fname, optional=True)
